@@ -216,6 +216,7 @@ func c01Sticky(c *Ctx, r *RuleResult, m *parserModel, f *parserFlow) {
 	p := c.P
 	for _, s := range storesToField(m.fns, m.T, "err") {
 		fn := s.fn
+		site := "store parser.err in " + p.FuncName(fn) + " at " + p.Pos(s.store.Pos())
 		// dominated by the false edge of `p.err != nil` (err == nil) ...
 		guarded := false
 		var guard *ssa.BasicBlock
@@ -226,8 +227,25 @@ func c01Sticky(c *Ctx, r *RuleResult, m *parserModel, f *parserFlow) {
 				break // the nearest test
 			}
 		}
-		site := "store parser.err in " + p.FuncName(fn) + " at " + p.Pos(s.store.Pos())
 		if !guarded {
+			// a helper whose every call site is itself under err == nil (the caller tests, the helper stores)
+			calls := callsTo(m.fns, fn)
+			allGuarded := len(calls) > 0 && fn.Parent() == nil
+			for _, ci := range calls {
+				g := false
+				for _, cd := range condsAt(ci.Block()) {
+					if ne, ok := f.isErrNilTest(cd.V); ok && ne != cd.True {
+						g = true
+					}
+				}
+				if !g {
+					allGuarded = false
+				}
+			}
+			if allGuarded {
+				r.OK(site, "every call site of the helper is under err == nil")
+				continue
+			}
 			r.Fail(s.store.Pos(), p.FuncName(fn), "unguarded store to parser.err", "the sticky error is overwritten without first checking that none is recorded: the first error (and its location) can be replaced by a later one")
 			continue
 		}
@@ -523,6 +541,12 @@ func (a *poe) poeFunc(fn *ssa.Function, entry kval) bool {
 func (a *poe) block(fn *ssa.Function, b *ssa.BasicBlock, st poeState) poeState {
 	st = st.clone()
 	for _, in := range b.Instrs {
+		if a.f.discardsLookahead(in) {
+			st.prog = true
+			st.k = kval{}
+			st.peeks = map[ssa.Instruction]bool{}
+			continue
+		}
 		ci, ok := in.(ssa.CallInstruction)
 		if !ok {
 			continue
